@@ -12,6 +12,7 @@ from shapepy import JordanCurve
 from symx.core import Sym, val
 
 EPS9 = F(1, 10**9)
+TOL9 = F(1e-9)  # (the same for the 1e-9 below which two parameters of one segment give a single junction)
 TOL6 = F(1e-6)  # the library compares with the float literal 1e-6: use its exact value so that the classification is uniform on a path cell
 
 
@@ -84,7 +85,7 @@ class JSplit:
 
     def expected(self, xs, pts):
         """vertex list the statement prescribes: on every edge the nodes that are not within 1e-6 of 0 or 1 and not
-        within 1e-6 of the previous junction, in increasing order (decided on shadow values: the order is fixed
+        within 1e-9 of the previous junction, in increasing order (decided on shadow values: the order is fixed
         on a path because the library sorted the nodes)"""
         n = len(pts)
         out = []
@@ -99,7 +100,7 @@ class JSplit:
                 v = val(x)
                 if v < TOL6 or 1 - v < TOL6:
                     continue
-                if last is not None and v - last < TOL6:  # a parameter closer than the tolerance to the previous junction is ignored
+                if last is not None and v - last <= TOL9:  # a parameter the knot insertion cannot tell from the previous junction is ignored
                     continue
                 last = v
                 out.append((a[0] + x * (b[0] - a[0]), a[1] + x * (b[1] - a[1])))
